@@ -301,6 +301,7 @@ impl Engine for C13 {
                 app_console: false,
                 app_legacy_date: false,
                 net_faults: run.net_faults.clone(),
+                server_today: None,
                 fs_faults: run.fs_faults.clone(),
                 knobs: Knobs { max_write: sc.max_write, max_read: sc.max_read },
                 hash_seed: run.hash_seed,
